@@ -65,6 +65,7 @@ class ConstantUnitaryGate(Gate, CachedClass):
     def __eq__(self, other: object) -> bool:
         return (
             isinstance(other, ConstantUnitaryGate)
+            and self.radixes == other.radixes
             and self._utry == other._utry
         )
 
